@@ -891,7 +891,17 @@ def exit_discipline(repo):
         raise ValueError(f"enum Severity: {names}")
     sev = {n: i for i, n in enumerate(names)}
     m = re.search(r"enum\s+ErrorCode\s*\{([^}]*)\}", hdr)
-    codes = [x.strip().split("=")[0].strip() for x in m.group(1).split(",") if x.strip()]
+    codes, values, nxt = [], {}, 0
+    for x in m.group(1).split(","):
+        if not x.strip():
+            continue
+        nm, _, val = x.partition("=")
+        nm = nm.strip()
+        if val.strip():
+            nxt = int(val.strip(), 0)
+        codes.append(nm)
+        values[nm] = nxt
+        nxt += 1
     err_c = _strip_comments(_read(repo, "src/express/error.c"))
     m = re.search(r"LibErrors\s*\[\s*\]\s*=\s*\{", err_c)
     table, _ = _block_at(err_c, m.end() - 1)
@@ -899,7 +909,10 @@ def exit_discipline(repo):
     missing = [c for c in codes if c not in entries]
     if missing or len(entries) != len(codes):
         raise ValueError(f"LibErrors and enum ErrorCode differ: {missing[:5]}")
-    sevs = [sev[entries[c]] for c in codes]
+    # index = the number of the code (PEnnn); numbers without a table entry are zero-initialised (severity 0)
+    sevs = [0] * (max(values.values()) + 1)
+    for c in codes:
+        sevs[values[c]] = sev[entries[c]]
     fns = _functions(err_c)
     gate = r"^\s*(va_list\s+args\s*;|va_start\s*\([^;]*;|Error\s+what\s*=\s*&LibErrors\[errnum\]\s*;|\s)*if\s*\(\s*errnum\s*!=\s*SUBORDINATE_FAILED\s*&&\s*ERRORis_enabled\s*\(\s*errnum\s*\)\s*\)\s*\{"
     reports = []
@@ -1019,7 +1032,7 @@ def exit_discipline(repo):
     total = len(re.findall(r"\bexit\s*\(", "".join(_drop_disabled(_strip_comments(open(f, encoding="latin-1").read())) for f in _glob_sources(repo))))
     if total != len(sites) + 3:
         raise ValueError(f"{total} calls of exit( ) in the sources, {len(sites)} + 3 understood")
-    return {"sevs": sevs, "subordinate": codes.index("SUBORDINATE_FAILED"), "reports": reports, "failPre": fail_pre, "failStatus": fail_status,
+    return {"sevs": sevs, "subordinate": values["SUBORDINATE_FAILED"], "reports": reports, "failPre": fail_pre, "failStatus": fail_status,
             "succPre": succ_pre, "succStatus": succ_status, "failHooks": hooks_fail, "checks": checks, "usageGuarded": usage_guarded,
             "setsUsage": sets_usage, "sites": sites, "stray": stray, "thresholds": (sev["SEVERITY_ERROR"], sev["SEVERITY_EXIT"], sev["SEVERITY_DUMP"])}
 
@@ -1167,6 +1180,8 @@ def extract(repo):
     A(f"def pyCallCfg : PyCallCfg := {{ initial := {py_init}, ensure := {_opt(py_ensure)}, sep := {py_sep}, close := {py_close} }}")
     A("/-- recursive walks over the USE graph: (function, marks the schema with the current search id before recursing and starts no other search meanwhile) -/")
     A("def graphWalks : List (String × Bool) := [" + ", ".join(f'("{f}", {str(ok).lower()})' for f, ok in walks) + "]")
+    A("/-- RENAMEresolve: in-progress mark before the search, cleared only after `failed` or the object is set -/")
+    A(f"def renameResolveMarkFirst : Bool := {str(dict(walks)['RENAMEresolve']).lower()}")
     A("/-- functions of src/express that start a new search (increment `__SCOPE_search_id`) -/")
     A("def searchStarters : List String := [" + ", ".join(f'"{x}"' for x in bumpers) + "]")
     def _fn(r):
